@@ -245,14 +245,22 @@ impl Instance {
         let Some(methods) = self.methods.as_ref() else {
             return Resp::Err { code: -1, message: "instance closed".into(), data: None };
         };
-        let r = catch_unwind(AssertUnwindSafe(|| {
-            RT.with(|rt| rt.block_on(async { methods.raw_json_request(req, 1).await }))
-        }));
-        match r {
-            Err(_) => Resp::Panic(take_last_panic().unwrap_or_else(|| "panic".into())),
-            Ok(Err(e)) => Resp::Err { code: -2, message: format!("dispatch: {e}"), data: None },
-            Ok(Ok((raw, _rx))) => parse_response(raw.get()),
-        }
+        dispatch(methods, req)
+    }
+
+    /// another handle on the same engine (for concurrent request threads)
+    pub fn methods_clone(&self) -> Option<verif::jsonrpsee::Methods> {
+        self.methods.clone()
+    }
+}
+
+/// run one request on the calling thread's own paused current-thread runtime
+pub fn dispatch(methods: &verif::jsonrpsee::Methods, req: &str) -> Resp {
+    let r = catch_unwind(AssertUnwindSafe(|| RT.with(|rt| rt.block_on(async { methods.raw_json_request(req, 1).await }))));
+    match r {
+        Err(_) => Resp::Panic(take_last_panic().unwrap_or_else(|| "panic".into())),
+        Ok(Err(e)) => Resp::Err { code: -2, message: format!("dispatch: {e}"), data: None },
+        Ok(Ok((raw, _rx))) => parse_response(raw.get()),
     }
 }
 
